@@ -33,15 +33,61 @@ const hookImport = "github.com/ChrisTrenkamp/xsel/verifhook"
 type instrumenter struct {
 	fset  *token.FileSet
 	sites []string
+	// syncSite[i]: executing the statement after site i may perform a
+	// synchronisation operation (channel operation, go, select, a call of a
+	// method named like a sync primitive, close) or leave a function that has
+	// deferred calls. Only such steps can release a blocked goroutine.
+	syncSite []bool
+	inDefer  int
 	skip  map[*ast.BlockStmt]bool
 	rel   string
 	skipFunc map[string]bool
 }
 
-func (in *instrumenter) site(pos token.Pos) ast.Stmt {
+var syncNames = map[string]bool{"Lock": true, "Unlock": true, "RLock": true, "RUnlock": true, "Wait": true, "Done": true, "Add": true, "Signal": true, "Broadcast": true,
+	"Do": true, "Store": true, "Load": true, "Swap": true, "CompareAndSwap": true, "Get": true, "Put": true, "Range": true, "Delete": true, "LoadOrStore": true, "Go": true, "Acquire": true, "Release": true, "TryLock": true, "Close": true, "Kill": true, "Exit": true}
+
+func stmtMaySync(s ast.Stmt) bool {
+	found := false
+	ast.Inspect(s, func(n ast.Node) bool {
+		if found {
+			return false
+		}
+		switch x := n.(type) {
+		case *ast.FuncLit:
+			return false // its statements carry their own sites
+		case *ast.SendStmt, *ast.GoStmt, *ast.SelectStmt, *ast.DeferStmt:
+			found = true
+		case *ast.UnaryExpr:
+			if x.Op == token.ARROW {
+				found = true
+			}
+		case *ast.RangeStmt:
+			found = true // may range over a channel; cheap over-approximation
+		case *ast.CallExpr:
+			switch f := x.Fun.(type) {
+			case *ast.SelectorExpr:
+				if syncNames[f.Sel.Name] {
+					found = true
+				}
+			case *ast.Ident:
+				if f.Name == "close" || f.Name == "panic" {
+					found = true
+				}
+			}
+		}
+		return true
+	})
+	return found
+}
+
+func (in *instrumenter) site(pos token.Pos) ast.Stmt { return in.siteFor(pos, nil) }
+
+func (in *instrumenter) siteFor(pos token.Pos, stmt ast.Stmt) ast.Stmt {
 	p := in.fset.Position(pos)
 	id := len(in.sites)
 	in.sites = append(in.sites, fmt.Sprintf("%s:%d", in.rel, p.Line))
+	in.syncSite = append(in.syncSite, in.inDefer > 0 || (stmt != nil && stmtMaySync(stmt)))
 	return &ast.ExprStmt{X: &ast.CallExpr{
 		Fun:  &ast.SelectorExpr{X: ast.NewIdent("verifhook"), Sel: ast.NewIdent("Yield")},
 		Args: []ast.Expr{&ast.BasicLit{Kind: token.INT, Value: fmt.Sprint(id)}},
@@ -51,7 +97,7 @@ func (in *instrumenter) site(pos token.Pos) ast.Stmt {
 func (in *instrumenter) list(stmts []ast.Stmt) []ast.Stmt {
 	out := make([]ast.Stmt, 0, 2*len(stmts))
 	for _, s := range stmts {
-		out = append(out, in.site(s.Pos()))
+		out = append(out, in.siteFor(s.Pos(), s))
 		if _, ok := s.(*ast.GoStmt); ok {
 			// announce the goroutine so that the scheduler waits for it to register
 			out = append(out, &ast.ExprStmt{X: hookCall("Spawn")})
@@ -86,12 +132,68 @@ func (in *instrumenter) file(f *ast.File) {
 		}
 		return true
 	})
+	// functions that defer anything: every step inside may end by running the
+	// deferred calls (which may synchronise)
+	hasDefer := map[*ast.BlockStmt]bool{}
+	var markDefer func(body *ast.BlockStmt)
+	markDefer = func(body *ast.BlockStmt) {
+		if body == nil {
+			return
+		}
+		ast.Inspect(body, func(n ast.Node) bool {
+			switch x := n.(type) {
+			case *ast.FuncLit:
+				markDefer(x.Body)
+				return false
+			case *ast.DeferStmt:
+				hasDefer[body] = true
+			}
+			return true
+		})
+	}
+	for _, d := range f.Decls {
+		if fd, ok := d.(*ast.FuncDecl); ok {
+			markDefer(fd.Body)
+		}
+	}
 	var funcs []*ast.BlockStmt
+	// stack of visited nodes, so that leaving a function restores the flag of
+	// the enclosing one
+	type frame struct {
+		isFunc bool
+		prev   int
+	}
+	var stack []frame
 	ast.Inspect(f, func(n ast.Node) bool {
+		if n == nil {
+			fr := stack[len(stack)-1]
+			stack = stack[:len(stack)-1]
+			if fr.isFunc {
+				in.inDefer = fr.prev
+			}
+			return true
+		}
 		if fd, ok := n.(*ast.FuncDecl); ok && in.skipFunc[fd.Name.Name] {
 			return false
 		}
+		fr := frame{}
 		switch x := n.(type) {
+		case *ast.FuncDecl:
+			fr = frame{true, in.inDefer}
+			in.inDefer = 0
+			if x.Body != nil {
+				funcs = append(funcs, x.Body)
+				if hasDefer[x.Body] {
+					in.inDefer = 1
+				}
+			}
+		case *ast.FuncLit:
+			fr = frame{true, in.inDefer}
+			in.inDefer = 0
+			funcs = append(funcs, x.Body)
+			if hasDefer[x.Body] {
+				in.inDefer = 1
+			}
 		case *ast.BlockStmt:
 			if !in.skip[x] {
 				x.List = in.list(x.List)
@@ -100,13 +202,8 @@ func (in *instrumenter) file(f *ast.File) {
 			x.Body = in.list(x.Body)
 		case *ast.CommClause:
 			x.Body = in.list(x.Body)
-		case *ast.FuncDecl:
-			if x.Body != nil {
-				funcs = append(funcs, x.Body)
-			}
-		case *ast.FuncLit:
-			funcs = append(funcs, x.Body)
 		}
+		stack = append(stack, fr)
 		return true
 	})
 	for _, b := range funcs {
@@ -201,7 +298,7 @@ func main() {
 	// the scheduler runtime becomes package /repo/verifhook
 	ents, _ := os.ReadDir(*hook)
 	for _, e := range ents {
-		if strings.HasSuffix(e.Name(), ".go") && !strings.HasSuffix(e.Name(), "_test.go") {
+		if (strings.HasSuffix(e.Name(), ".go") && !strings.HasSuffix(e.Name(), "_test.go")) || strings.HasSuffix(e.Name(), ".s") {
 			overlay[filepath.Join(*repo, "verifhook", e.Name())] = filepath.Join(*hook, e.Name())
 		}
 	}
@@ -210,6 +307,10 @@ func main() {
 	sb.WriteString("//go:build verif\n\npackage verifhook\n\n// Code generated by verif/instr. DO NOT EDIT.\n\nvar Sites = []string{\n")
 	for _, s := range in.sites {
 		fmt.Fprintf(&sb, "\t%q,\n", s)
+	}
+	sb.WriteString("}\n\n// SyncSite[i]: the statement after site i may synchronise (see verif/instr).\nvar SyncSite = []bool{\n")
+	for _, b := range in.syncSite {
+		fmt.Fprintf(&sb, "\t%v,\n", b)
 	}
 	sb.WriteString("}\n")
 	sitesFile := filepath.Join(*out, "sites_gen.go")
